@@ -73,7 +73,7 @@ class C14Run(E2Run):
                     pass
                 continue
             if age > p["d"] + 1:
-                if not p.get("done"):
+                if not p.get("done") and not p.get("ambiguous"):
                     still = True
                     if p["kind"] == "folder_restore":
                         fo = node.file_system.get_folder(p["target"])
@@ -149,12 +149,9 @@ class C14Run(E2Run):
                 bad("visible-health-not-actual-after-scan", f"visible health became {v1} while actual health was {a0} before and is {a1} after the op")
             self.probe("c14_visible_updated_by_scan")
         # ---- folder restore completion is visible through the folder's own health (RESTORING -> ...) ----
-        if kind == "folder" and a0 == "RESTORING" and a1 != "RESTORING":
-            hit = [p for p in self.pending if p["kind"] == "folder_restore" and p["host"] == host and p["target"] == name and not p.get("done")]
-            # (a folder scan falling due also rewrites the folder's own health, so leaving RESTORING is only used to
-            # retire the pending entry, not to time the restore; timing is judged on the files it repairs)
-            for h in hit:
-                h["done"] = True
+        # (a folder's own health leaves RESTORING for several reasons - a scan falling due or a corrupt request rewrite
+        # it - while the restore countdown keeps running: it says nothing about the pending restore, whose timing is
+        # judged on the files it repairs)
         # ---- actual ----
         if a1 != a0 and kind in ("sw", "file"):
             explained = False
@@ -243,7 +240,10 @@ class C14Run(E2Run):
                     kind = "folder_scan" if verb == "scan" else "folder_restore"
                     # a request while the same operation is still counting down is ignored by the folder; once the
                     # earlier one may have fallen due (age >= d) the new request may start a new countdown
-                    already = any(p["kind"] == kind and p["host"] == hn and p["target"] == req[5] and not p.get("done") and (self.ticks - p["at"] - p.get("off_ticks", 0)) < p["d"] for p in self.pending)
+                    running = [p for p in self.pending if p["kind"] == kind and p["host"] == hn and p["target"] == req[5] and not p.get("done") and (self.ticks - p["at"] - p.get("off_ticks", 0)) < p["d"]]
+                    already = bool(running)
+                    for p in running:
+                        p["ambiguous"] = True  # asked again while counting down: no claim about when it must be over
                     if not already:
                         # an earlier one that may already have fallen due is superseded by this request
                         self.pending = [p for p in self.pending if not (p["kind"] == kind and p["host"] == hn and p["target"] == req[5])]
